@@ -78,6 +78,12 @@ def main():
     checks = []
     for pid in sorted(C):
         tech, text, note = C[pid]
+        try:
+            import notes_round8
+            extra = notes_round8.NOTES.get(pid, "")
+        except Exception:
+            extra = ""
+        text = (text + " " + extra).strip()
         checks.append({
             "property_id": pid,
             "quick_cmd": "./verif check %s --tier quick" % pid,
